@@ -30,6 +30,12 @@ type c09Config struct {
 	SeqDel  int   `json:"sequel_del_key,omitempty"`
 	SeqCost int64 `json:"sequel_cost,omitempty"`
 	SeqFreq int   `json:"sequel_gets,omitempty"`
+	// Aged: a small counter table (NumCounters 8: an aging reset every 8 recorded accesses). The
+	// newcomer (key 9) is offered once, then AgeGets more Gets go to the residents (round robin;
+	// the aging reset falls somewhere in there), then key 9 gets SeqFreq Gets and is offered again:
+	// the second decision must be made on the estimates of THAT moment
+	Aged    bool `json:"aged,omitempty"`
+	AgeGets int  `json:"gets_between_the_two_offers,omitempty"`
 	MaxCost  int64   `json:"max_cost"`
 	Costs    []int64 `json:"resident_costs"`  // resident i has key i+1
 	Freq     []int   `json:"resident_gets"`   // number of Gets per resident
@@ -42,6 +48,9 @@ type c09Config struct {
 func c09History(cf *c09Config) []SeqEvent {
 	if cf.Poison {
 		return c09PoisonHistory(cf)
+	}
+	if cf.Aged {
+		return c09AgedHistory(cf)
 	}
 	var h []SeqEvent
 	op := func(o Op) {
@@ -91,6 +100,45 @@ func c09History(cf *c09Config) []SeqEvent {
 		op(Op{K: "set", Key: 8, Cost: cf.SeqCost})
 		app()
 	}
+	return h
+}
+
+func c09AgedHistory(cf *c09Config) []SeqEvent {
+	var h []SeqEvent
+	op := func(o Op) {
+		if o.K == "set" {
+			o.Val = int64(len(h) + 1)
+		}
+		h = append(h, SeqEvent{K: "op", Op: &o})
+	}
+	app := func() { h = append(h, SeqEvent{K: "applier", Pick: 0}) }
+	pol := func() { h = append(h, SeqEvent{K: "policy", Pick: 0}) }
+	for i, c := range cf.Costs {
+		op(Op{K: "set", Key: i + 1, Cost: c})
+		app()
+	}
+	for i, f := range cf.Freq {
+		for k := 0; k < f; k++ {
+			op(Op{K: "get", Key: i + 1})
+			pol()
+		}
+	}
+	for k := 0; k < cf.InFreq; k++ {
+		op(Op{K: "get", Key: 9})
+		pol()
+	}
+	op(Op{K: "set", Key: 9, Cost: cf.InCost}) // first offer
+	app()
+	for k := 0; k < cf.AgeGets; k++ {
+		op(Op{K: "get", Key: k%len(cf.Costs) + 1})
+		pol()
+	}
+	for k := 0; k < cf.SeqFreq; k++ {
+		op(Op{K: "get", Key: 9})
+		pol()
+	}
+	op(Op{K: "set", Key: 9, Cost: cf.InCost}) // second offer: judged
+	app()
 	return h
 }
 
@@ -409,7 +457,11 @@ func fmtResidents(d *SDump, est map[int64]int64) string {
 }
 
 func c09Spec(cf *c09Config) *SeqSpec {
-	return &SeqSpec{Cfg: Cfg{NumCounters: 32, MaxCost: cf.MaxCost, BufferItems: 1, SetBuf: 8, MapOrder: cf.MapOrder}, LogEstimates: true,
+	nc := int64(32)
+	if cf.Aged {
+		nc = 8
+	}
+	return &SeqSpec{Cfg: Cfg{NumCounters: nc, MaxCost: cf.MaxCost, BufferItems: 1, SetBuf: 8, MapOrder: cf.MapOrder}, LogEstimates: true,
 		Alphabet: func(*SeqRun) []Op { return nil }, Oracle: c09Judge}
 }
 
@@ -622,6 +674,24 @@ func c09Jobs(tier string) []Job {
 			}
 		}
 	}
+	// aged: two offers of the same newcomer with an aging reset of the TinyLFU in between
+	{
+		maxF := 2
+		if !quick {
+			maxF = 3
+		}
+		costs := []int64{1, 1, 1}
+		for fm := 0; fm < (maxF+1)*(maxF+1)*(maxF+1); fm++ {
+			freq := []int{fm % (maxF + 1), fm / (maxF + 1) % (maxF + 1), fm / (maxF + 1) / (maxF + 1)}
+			for inF := 0; inF <= 1; inF++ {
+				for age := 0; age <= 8; age += 1 {
+					for sf := 0; sf <= 2; sf++ {
+						all = append(all, c09Config{Aged: true, AgeGets: age, MaxCost: 3, Costs: costs, Freq: freq, InKey: 9, InCost: 1, InFreq: inF, SeqFreq: sf, MapOrder: "rot"})
+					}
+				}
+			}
+		}
+	}
 	// batches of configurations per job
 	var jobs []Job
 	per := 400
@@ -635,7 +705,7 @@ func c09Jobs(tier string) []Job {
 
 func init() {
 	registerProp(&Prop{ID: "C09", Level: "model_checking",
-		Rule: "exhaustive enumeration of (resident population of 1-4 (thorough: 5) keys x costs in {1,2} that fit x Get counts 0-2 (thorough: 0-3) per resident x incoming new key or already-accounted key x incoming cost in {1,2,3,MaxCost+1} x incoming Get count x MaxCost in {3,5}) + populations of 6 and 7 unit-cost residents with MaxCost 7 (larger than the eviction sample of 5; Get counts 0-1, thorough 0-2 for 6 residents) " +
+		Rule: "exhaustive enumeration of (resident population of 1-4 (thorough: 5) keys x costs in {1,2} that fit x Get counts 0-2 (thorough: 0-3) per resident x incoming new key or already-accounted key x incoming cost in {1,2,3,MaxCost+1} x incoming Get count x MaxCost in {3,5}) + populations of 6 and 7 unit-cost residents with MaxCost 7 (larger than the eviction sample of 5; Get counts 0-1, thorough 0-2 for 6 residents) + an aged family (NumCounters 8: the same newcomer offered twice with 0-8 Gets on the residents, hence an aging reset, in between) " +
 			"x every permutation (n<=4) / rotation (n=5) of the sampling map's iteration order; each configuration is built on the real cache through the public API under the sequential driver (real Gets and policy-goroutine steps drive the TinyLFU counters) and the applier step deciding the incoming item is judged with the estimates read white-box immediately before it: " +
 			"fits => admitted, no victims; otherwise every victim is a minimum-estimate candidate with estimate <= the newcomer's and no victim is evicted needlessly; rejected only if larger than the cache, already accounted, or strictly less frequent than the least-frequent remaining candidate, and then OnReject fires",
 		Assume: []string{"the candidates sampled are reconstructed (as a set) from the logged range statements over the accounting map: keys handed to the loop body minus victims so far; for populations <= 5 this is every resident", "distinct = (admitted|rejected, number of victims) labels; states = configurations x map orders judged"},
